@@ -221,7 +221,12 @@ def dict_props_to_arr(
         except ValueError:
             # try to construct variable length properties - will raise an error if internal
             # dtypes are not compatible (e.g. floats and strings)
-            values_arr = construct_var_len_props(values)["values"]
+            var_len_props = construct_var_len_props(values)
+            values_arr = var_len_props["values"]
+            # None entries of a variable length property are missing values
+            if var_len_props["missing"] is not None:
+                missing = [m or bool(n) for m, n in zip(missing, var_len_props["missing"], strict=True)]
+                missing_any = True
         missing_arr = np.asarray(missing, dtype=bool) if missing_any else None
         props_dict[name] = {"missing": missing_arr, "values": values_arr}
     return props_dict
